@@ -18,7 +18,8 @@ def oracle(rng, cfg, xs):
     ys = (xs[:k] + tail)[:top]
     if len(ys) <= k:
         return bad, 0
-    a, b, c = nnm.run_impl(cfg, xs), nnm.run_impl(cfg, ys), nnm.run_impl(cfg, xs[:k])
+    v = rng.choice([0, 1, 1, 2])     # the caller's container: float array, int array or list of ints when the values are integers
+    a, b, c = nnm.run_impl(cfg, xs, variant=v), nnm.run_impl(cfg, ys, variant=v), nnm.run_impl(cfg, xs[:k], variant=v)
     if a["exc"] or b["exc"] or c["exc"]:
         return bad, 3   # well-formedness is C11's business
     eq = lambda p, q: len(p) == len(q) and all(nnm.close(u, v) for u, v in zip(p, q))
@@ -41,6 +42,10 @@ def run(ctx, res):
     cases, cr = nnm.run_corr(ctx.pid, ctx.rng, ctx.n(500, 6000), maxlen=ctx.n(12, 14))
     res.corr.append(("NonnegMean.test/estim/bet vs NNM.run_test/run_estim/run_bet", cr, nnm.case_json))
     res.evaluations += len(cases)
+    for c in cases:
+        for what in nnm.purity_violation(c):
+            res.oracle_violations.append({"what": f"{c['cfg']['kind']}: {what}", "input": nnm.case_json(c),
+                                          "signature": f"C05:{c['cfg']['kind']}:{what}"})
     n_or = ctx.n(900, 12000)
     kinds = nnm.KINDS
     for i in range(n_or):
@@ -50,6 +55,8 @@ def run(ctx, res):
             if cfg["kind"] == "alpha_shrink":
                 cfg["p"]["f"] = ctx.rng.choice([C.frac(0.5), C.frac(2), C.frac(0.125)])
         xs = nnm.gen_xs(ctx.rng, cfg, maxlen=14)
+        if i % 4 == 3:       # non-dyadic values, longer samples (oracle only: no comparison with the exact model)
+            cfg, xs = nnm.gen_nondyadic(ctx.rng)
         bad, runs = oracle(ctx.rng, cfg, xs)
         res.oracle_runs += runs
         res.evaluations += 1
